@@ -246,6 +246,7 @@ def run(R, tier):
     cases = []
     t_start = time.time()
     budget = 85 if quick else 2400           # seconds of python for the oracle part
+    p_extra = 0.15 if quick else 0.5         # share of operands that also go through / , number/x and ** (codegen_div is slow)
 
     specs = []
     for d in range(0, 4):
@@ -253,20 +254,20 @@ def run(R, tier):
             if quick and d == 3 and rng.random() < 0.5:
                 continue
             specs.append(({'sig': sig, 'start': rng.choice((None, None, 0, 1, 2))}, None))
-    for _ in range(5 if quick else 60):
+    for _ in range(8 if quick else 60):
         specs.append(({'sig': [rng.choice((1, -1, 0, 1, -1)) for _ in range(4)]}, None))
-    for _ in range(5 if quick else 50):
+    for _ in range(6 if quick else 50):
         specs.append(({'sig': [rng.choice((1, -1, 0, 1, -1)) for _ in range(5)]}, 6 if quick else 8))
-    for _ in range(4 if quick else 40):
+    for _ in range(6 if quick else 40):
         d = rng.choice((2, 3, 3, 4))
         sig = [rng.choice((1, -1, 0, 1)) for _ in range(d)]
         specs.append(({'sig': sig, 'basis': algs.random_basis(rng, d)}, None))
     specs += [({'pqr': (2, 0, 1)}, None), ({'pqr': (3, 0, 1)}, None), ({'pqr': (1, 3, 0)}, None)]
-    for _ in range(5 if quick else 40):
-        d = rng.choice((6, 6, 7))
+    for d in ((6, 6, 6, 6, 7, 7, 7) if quick else [rng.choice((6, 6, 7, 7, 8)) for _ in range(60)]):
         specs.append(({'sig': [rng.choice((1, -1, 0, 1, -1)) for _ in range(d)]}, 4))
 
-    tie_budget = {'hitzer': 70 if quick else 600, 'inv': 70 if quick else 600, 'shirokov': 2 if quick else 10}
+    tie_budget = {'hitzer': 120 if quick else 3000, 'inv': 120 if quick else 3000, 'shirokov': 2 if quick else 12}
+    p_tie = 0.3 if quick else 1.0
     for spec, max_keys in specs:
         if time.time() - t_start > budget:
             R.notes.append(f'oracle budget of {budget} s reached after {R.evaluations} cases')
@@ -285,21 +286,22 @@ def run(R, tier):
         for kind_, items in ops_:
             R.count(f'd={d}'); R.count('kind=' + kind_); R.count('basis=' + algs.kind(spec))
             t0 = time.time()
-            outcome, xi = oracle(R, alg, spec, items, exact, extra=(d <= 5 or rng.random() < 0.5))
+            outcome, xi = oracle(R, alg, spec, items, exact, extra=(rng.random() < p_extra))
             R.count('outcome=' + outcome)
             nontrivial = any(v != 0 for _, v in items)
             R.case((desc, tuple(items)), nontrivial,
                    sample={'algebra': desc, 'x': [(k, str(v)) for k, v in items], 'outcome': outcome,
                            'inverse': None if xi is None else [(k, str(v)) for k, v in obs(xi)][:6]})
-            if prev is not None and d <= 5 and rng.random() < 0.5:
+            if prev is not None and d <= 5 and rng.random() < p_extra / 2:
                 div_oracle(R, alg, spec, prev, items, exact)
                 R.count('binary-div')
             prev = items
             # ---- model tie -------------------------------------------------------------------------
             if outcome == 'violation':
                 continue
-            if d <= 5 and tie_budget['inv'] > 0 and len(items) <= 16:
+            if d <= 5 and tie_budget['inv'] > 0 and len(items) <= 16 and rng.random() < p_tie:
                 tie_budget['inv'] -= 1
+                R.count('tie=inv_model')
                 exp = 'false'
                 if outcome == 'ok':
                     exp = f'match r with Ok v => qmv_equiv A v {qmv_term(obs(xi))} | Err _ => false end'
@@ -310,8 +312,9 @@ def run(R, tier):
                               'show': algs.with_alg(ref, f'inv_model Qops Qdv Qisz idF A {qmv_term(items)}', '(Err EOther)'),
                               'meta': {'kind': 'inv', 'spec': spec, 'x': [(k, str(v)) for k, v in items],
                                        'impl': outcome if xi is None else [(k, str(v)) for k, v in obs(xi)]}})
-            if d <= 5 and tie_budget['hitzer'] > 0 and len(items) <= 16:
+            if d <= 5 and tie_budget['hitzer'] > 0 and len(items) <= 16 and rng.random() < p_tie:
                 tie_budget['hitzer'] -= 1
+                R.count('tie=hitzer')
                 iit = [(k, int(v * 12)) for k, v in items]            # integer operand
                 try:
                     num, den = codegen_hitzer_inv(mk(alg, iit), symbolic=True)
@@ -326,6 +329,7 @@ def run(R, tier):
                                 f'codegen_hitzer_inv raised {type(e).__name__}: {e} on {iit} in Algebra({desc})')
             if d == 6 and tie_budget['shirokov'] > 0 and len(items) <= 2:
                 tie_budget['shirokov'] -= 1
+                R.count('tie=shirokov')
                 try:
                     adj, den = codegen_shirokov_inv(mk(alg, items), symbolic=True)
                     aobs = [(int(k), Fr(v)) for k, v in zip(adj.keys(), adj.values())]
